@@ -339,6 +339,16 @@ theorem sim_throw_bind {α β : Type} {Q : β → β → Prop} {e e' : CompileEr
 theorem sim_cerr_bind {α β : Type} {Q : β → β → Prop} (msg : String) {k k' : α → CM β} :
     Sim ρ Q ((cerr msg : CM α) >>= k) ((cerr msg : CM α) >>= k') := sim_throw_bind (ErrRel.same _)
 
+theorem sim_cerr_rel {α : Type} {R : α → α → Prop} {m m' : String} (h : ErrRel ρ (.err m) (.err m')) :
+    Sim ρ R (cerr m) (cerr m') := sim_throw h
+
+theorem sim_cerr_bind_rel {α β : Type} {Q : β → β → Prop} {m m' : String} {k k' : α → CM β}
+    (h : ErrRel ρ (.err m) (.err m')) : Sim ρ Q ((cerr m : CM α) >>= k) ((cerr m' : CM α) >>= k') :=
+  sim_throw_bind h
+
+theorem sim_unsupported_bind {α β : Type} {Q : β → β → Prop} (msg : String) {k k' : α → CM β} :
+    Sim ρ Q ((unsupported msg : CM α) >>= k) ((unsupported msg : CM α) >>= k') := sim_throw_bind (ErrRel.same _)
+
 /-- An action that does not look at the names in the tables. -/
 theorem sim_oblivious {α : Type} {m : CM α}
     (h : ∀ s, m (renState ρ s) = (m s).map (fun p => (p.1, renState ρ p.2))) : Sim ρ Eq m m := by
